@@ -956,7 +956,7 @@ type primSolidRec struct {
 	Data       []int   `json:"data"`
 }
 
-const primMaxExactProbes = 160000
+const primMaxExactProbes = 120000
 
 func primProbeSolid(id int, s *primShape) primSolidRec {
 	rec := primSolidRec{ID: id, Kind: "solid", Site: s.site, Variant: s.variant, Dim: s.dim, Shape: s.shape, Data: s.data,
@@ -1181,15 +1181,25 @@ func primSdfQuery(s *primShape, q [3]int, tag string) primSdfQ {
 	o.Pdist = math.Abs(d-math.Abs(v)) <= 1e-9*(1+math.Abs(v))
 	o.Psurf = math.Abs(s.sdf(p)) <= 1e-9*(1+pvMaxAbs(p))
 	o.Nunit = math.Abs(pvNorm(n)-1) <= 1e-9
-	o.Nout = primOutward(s, p, n)
-	o.Ncons = primNormalAt(s, p, n)
-	if d > 1e-6 && primSmoothAt(s, p) {
-		// the nearest point is a smooth surface point: the query lies on its normal line
-		u := pvScale(pvSub(c, p), 1/d)
-		if v > 0 {
-			u = pvScale(u, -1) // the query is inside: the outward direction points away from it
+	// the normal is judged at the nearest point only if PointSDF delivered a surface point (clause
+	// "point" otherwise); on everywhere-smooth shapes NormalSDF is also judged on its own: the
+	// query moved by SDF * normal must land on the surface
+	o.Nout, o.Ncons = true, true
+	if o.Psurf && o.Pdist {
+		o.Nout = primOutward(s, p, n)
+		o.Ncons = primNormalAt(s, p, n)
+		if d > 1e-6 && primSmoothAt(s, p) {
+			// the nearest point is a smooth surface point: the query lies on its normal line
+			u := pvScale(pvSub(c, p), 1/d)
+			if v > 0 {
+				u = pvScale(u, -1) // the query is inside: the outward direction points away from it
+			}
+			o.Ncons = o.Ncons && pvDot(n, u) >= 1-1e-6
 		}
-		o.Ncons = o.Ncons && pvDot(n, u) >= 1-1e-6
+	}
+	if s.smooth {
+		x := pvAdd(c, pvScale(n, v))
+		o.Ncons = o.Ncons && math.Abs(s.sdf(x)) <= 1e-9*(1+pvMaxAbs(x))
 	}
 	o.V4, o.V4x = scaledInt(v, 4)
 	o.V256, _ = scaledInt(v, 256)
